@@ -303,6 +303,8 @@ class ProducerLayout:
         """data path text of an expression rooted at the artifact or an alias; None when not a data path"""
         if isinstance( e, ast.IfExp ):
             return self.datapath( e.body, alias )
+        if isinstance( e, ast.Call ) and call_name( e ) in ( 'bytes', 'bytearray', 'octets_encode' ) and len( e.args ) == 1:
+            return self.datapath( e.args[0], alias )
         d = dotted( e )
         if d is None:
             # x.setdefault( 'k', default ) / x.get( 'k', d ) -> x.k
@@ -427,6 +429,12 @@ class ProducerLayout:
                 # b''.join( map( producer, data.get( 'data' ))): a list of elements
                 lp = self.datapath( e.args[0].args[1], alias ) or txt( e.args[0].args[1] )
                 return [ ( (( 'V', 'elements', lp, () ), ), {} ) ]
+        if isinstance( e, ast.Subscript ) and isinstance( e.value, ast.Name ) and isinstance( e.slice, ast.Slice ):
+            return [ ( (( 'V', 'raw', None, (( 'len', 'slice' ), )), ), {} ) ]		# a slice of locally assembled bytes
+        if isinstance( e, ast.BinOp ) and isinstance( e.op, ast.Mult ) and isinstance( try_fold( e.left ), bytes ):
+            return [ ( (( 'V', 'fill', None, () ), ), {} ) ]				# a computed run of fill octets (part of the preceding field)
+        if isinstance( e, ast.Call ) and isinstance( e.func, ast.Attribute ) and e.func.attr == 'encode' and self.datapath( e.func.value, alias ) is not None:
+            return [ ( (( 'V', 'raw', self.datapath( e.func.value, alias ), (( 'len', 'to-end' ), )), ), {} ) ]
         if isinstance( e, ast.Name ) or isinstance( e, ast.Attribute ):
             p = self.datapath( e, alias )			# None: a local (bytes assembled earlier)
             return [ ( (( 'V', 'raw', p, (( 'len', 'to-end' ), )), ), {} ) ]
@@ -608,6 +616,8 @@ def path_compat( p, q ):
     if p is None or q is None:
         return True					# a local of the producer: no data path to compare
     if isinstance( p, tuple ):
+        if p[0] == 'LEN' and isinstance( q, str ) and q.replace( '_', '.' ).split( '.' )[-1] in ( 'length', 'size', 'count', 'number' ):
+            return True					# a length/count field (what it bounds is checked by G-REF / G-BOUND)
         if p[0] in ( 'LEN', 'ELEM' ):
             if p[1] is None:
                 return True
@@ -618,7 +628,8 @@ def path_compat( p, q ):
         return False
     if isinstance( q, tuple ):
         return path_compat( q, p )
-    p, q = p.replace( '_', '.' ), q.replace( '_', '.' )	# e.g. application_size (as parsed) is moved to application.size
+    import re as _re
+    p, q = _re.sub( r'\.+', '.', p.replace( '_', '.' )), _re.sub( r'\.+', '.', q.replace( '_', '.' ))	# application_size -> application.size, item__ -> item
     if p == q:
         return True
     return q.startswith( p + '.' ) or p.startswith( q + '.' ) or ( p == '' or q == '' )
@@ -647,8 +658,7 @@ def atom_eq( a, b ):
         return path_compat( a[2], b[2] )
     if a[0] == 'R':
         # same count source and pairwise matching element layouts
-        if not ( path_compat( a[1], b[1] ) if isinstance( a[1], str ) and isinstance( b[1], str ) else True ):
-            return False
+        # (the producer iterates a list, the parser repeats by a count field: G-REF checks that the count field exists and is an integer)
         for sa in a[2]:
             if not any( len( sa ) == len( sb ) and all( atom_eq( x, y ) for x, y in zip( sa, sb )) for sb in b[2] ):
                 return False
@@ -677,6 +687,8 @@ def seq_match( P, Q ):
             r = False
             if i < len( P ) and j < len( Q ) and atom_eq( P[i], Q[j] ):
                 r = m( i + 1, j + 1 )
+            if not r and i < len( P ) and P[i][0] == 'V' and P[i][1] == 'fill':
+                r = m( i + 1, j )			# fill octets belong to the preceding variable field
             both_var = i < len( P ) and j < len( Q ) and P[i][0] == 'V' and Q[j][0] == 'V' and P[i][1] in SKIPPABLE and Q[j][1] in SKIPPABLE
             if not r and not both_var and j < len( Q ) and Q[j][0] == 'V' and Q[j][1] in SKIPPABLE:
                 r = m( i, j + 1 )
